@@ -342,6 +342,34 @@ def _mk_seq_hitags_e(**s):
 
 P_SEQ_HITAGS = {"i0": SMALL, "i1": I(0, 1), "hb": B, "hc": B, "hd": B, "he": B, "f0": B, "o0": BYTE, "n": I(0, 1)}
 
+# a wide heterogeneous record (more than 10 members: schemaless decoding generates field-0 .. field-11) and OPTIONAL NULL members
+SEQ_WIDE = T("SEQ", comps=[("f%d" % i_, (INT if i_ % 2 == 0 else OCTS), "req", None) for i_ in range(12)], name="SEQ{f0 INT,f1 OCTS,...,f11 OCTS}")
+
+
+def _mk_seq_wide(**s):
+    av = {}
+    for i_ in range(12):
+        av["f%d" % i_] = (s["i0"] + i_) if i_ % 2 == 0 else bytes([s["o0"], 48 + i_][: s["n"]])
+    return av
+
+
+SEQ_OPTNULL = T("SEQ", comps=[("name", OCTS, "req", None), ("marker", NULL, "opt", None), ("m2", NULL.tagged(("E", "C", 0)), "opt", None),
+                              ("flag", BOOL, "opt", None), ("z", INT, "opt", None)], name="SEQ{name OCTS,marker NULL?,m2 [0]E NULL?,flag BOOL?,z INT?}")
+
+
+def _mk_seq_optnull(**s):
+    av = {"name": bytes([s["o0"]][: s["n"]])}
+    if s["hb"]:
+        av["marker"] = None
+    if s["hc"]:
+        av["m2"] = None
+    if s["hd"]:
+        av["flag"] = s["f0"]
+    if s["he"]:
+        av["z"] = s["i1"]
+    return av
+
+
 # OPTIONAL constructed members: "absent" and "present but empty" are different abstract values
 SEQ_OPTC = T("SEQ", comps=[("a", INT, "req", None),
                            ("i", T("SEQ", comps=[("x", INT, "opt", None)]), "opt", None),
@@ -385,6 +413,9 @@ def constructed():
     C.append(Entry("seq_hitags", SEQ_HITAGS, P_SEQ_HITAGS, _mk_seq_hitags, ["constructed", "record", "tagged_members"], shard=("hb", "he")))
     C.append(Entry("seq_hitags.E", SEQ_HITAGS_E, {"i0": SMALL, "i1": I(0, 1), "hc": B, "o0": BYTE, "n": I(0, 1)}, _mk_seq_hitags_e,
                    ["constructed", "record", "tagged_members", "has_explicit"]))
+    C.append(Entry("seq_wide", SEQ_WIDE, {"i0": SMALL, "o0": BYTE, "n": I(0, 2)}, _mk_seq_wide, ["constructed", "record", "univ"]))
+    C.append(Entry("seq_optnull", SEQ_OPTNULL, {"o0": BYTE, "n": I(0, 1), "hb": B, "hc": B, "hd": B, "f0": B, "he": B, "i1": I(0, 1)}, _mk_seq_optnull,
+                   ["constructed", "record", "has_explicit"]))
     C.append(Entry("set_chx", SET_CHX, P_SET_CHX, _mk_set_chx, ["constructed", "record", "set", "choice", "has_explicit"], shard=("w",)))
     C.append(Entry("seq_optc", SEQ_OPTC, P_SEQ_OPTC, _mk_seq_optc, ["constructed", "record", "nested"], shard=("hi", "hl")))
     C.append(Entry("seqof_empty_elem", T("SEQOF", elem=T("SEQOF", elem=NULL)), {"k": I(0, 2), "k2": I(0, 2)}, lambda **s: [[None] * s["k2"], []][: s["k"]], ["constructed", "list", "nested", "univ"]))
